@@ -677,6 +677,8 @@ func main() {
 	w.px[1].Stop()
 
 	extraPhases(run)
+	interimPhase(run)
+	bufferMonitors(run)
 	run.Require("h2_long_connection_uploads", 300)
 	run.Require("duplex_uploads_h1-chunked", 3)
 	run.Require("requests_compared_at_backend", int64(run.Pick(2500, 35000)))
